@@ -368,8 +368,9 @@ class Report:
         for v in uniq:
             hit = [k for k in known if k[0] == self.prop and k[1] == v["key"]]
             if hit:
-                print("KNOWN-FINDING: property=%s %s %s" % (self.prop, v["key"], hit[0][2]))
-                self.known_hit.append(v["key"])
+                if v["key"] not in self.known_hit:
+                    print("KNOWN-FINDING: property=%s %s %s" % (self.prop, v["key"], hit[0][2]))
+                    self.known_hit.append(v["key"])
             else:
                 real.append(v)
         cov = self.cov
